@@ -770,3 +770,20 @@ Definition rrr_class_ok (E : toff) (c : N) : bool :=
       (l =? bits32 (bn - 1)) && forallb (rrr_slot_ok E c) (rrr_range (N.to_nat bn) 0)
   | _, _ => false
   end.
+
+(* ------------------------------------------------------------------------- *)
+(* 9. the RRR instance of the pointer wavelet tree of BitRGDefs section C      *)
+(*    (BitSequenceBuilderRRR(sample_rate): FM-index with sparse_bitsequence, XBW) *)
+(* ------------------------------------------------------------------------- *)
+Definition rrr_empty_obj : rrr := mkRRR 0 0 [] [0] 0 1 4 0 [0] [] 2 1 0 0 1.
+Definition rrrt_build_e (E : toff) (sr : N) (bits : list bool) : rrr :=
+  match rrr_of_bits E bits sr with Some d => d | None => rrr_empty_obj end.
+Definition rrrt_access_e (E : toff) (d : rrr) (i : N) : bool := match rrr_access E d i with Some b => b | None => false end.
+Definition rrrt_rank1_e (E : toff) (d : rrr) (i : N) : N := match rrr_rank1 E d i with Some v => v | None => 0 end.
+Definition rrrt_select1_e (E : toff) (d : rrr) (j : N) : N := match rrr_select1 E d j with Some v => v | None => 0 end.
+Definition rrrt_select0_e (E : toff) (d : rrr) (j : N) : N := match rrr_select0 E d j with Some v => v | None => 0 end.
+Definition rrrt_build := rrrt_build_e rrr_E.
+Definition rrrt_access := rrrt_access_e rrr_E.
+Definition rrrt_rank1 := rrrt_rank1_e rrr_E.
+Definition rrrt_select1 := rrrt_select1_e rrr_E.
+Definition rrrt_select0 := rrrt_select0_e rrr_E.
